@@ -101,15 +101,23 @@ def shortest_valid_sequence(rule_name):
     return seq
 
 
-def make_node(rule_name, element=None, child_names=(), content="__canonical__", attributes=None):
-    """A node governed by rule_name with valid attributes/content unless overridden."""
+def make_node(rule_name, element=None, child_names=(), content="__canonical__", attributes=None, nested=False, child_prefix=None):
+    """A node governed by rule_name with valid attributes/content unless overridden.  nested: the node hangs below a
+    (foreign) grandparent, as nodes inside documents do; child_prefix: {child position: prefix} for children carrying a prefix."""
     name = element if element is not None else (elements_of(rule_name) or (synthetic_name(rule_name),))[0]
     n = Node(name)
+    if nested:
+        gp = Node("verifGrandParent")
+        gp.add_child(Node("verifSibling"))
+        gp.add_child(n)
     n.content = canonical_content(rule_name) if content == "__canonical__" else content
     for k, v in (valid_attributes(rule_name) if attributes is None else attributes).items():
         n.add_attribute(k, v)
-    for c in child_names:
-        n.add_child(Node(c))
+    for i, c in enumerate(child_names):
+        ch = Node(c)
+        if child_prefix and i in child_prefix:
+            ch.prefix = child_prefix[i]
+        n.add_child(ch)
     return n
 
 
@@ -132,7 +140,12 @@ def discard(*roots):
     """Harness hygiene: forget the nodes of finished cases (the registry keeps every node alive)."""
     store = Node.store
     for root in roots:
-        stack = [root]
+        top = root
+        seen_up = set()
+        while top.parent is not None and id(top) not in seen_up and top in top.parent.children:
+            seen_up.add(id(top))
+            top = top.parent
+        stack = [top]
         seen = set()
         while stack:
             n = stack.pop()
